@@ -172,7 +172,7 @@ func basicOps() []OpDef {
 			}
 			return &Call{Name: "probe.run", Mut: mut, Meta: map[string]interface{}{"probe_steps": steps}, Spec: world.TxnSpec{From: from, To: world.ProbeAddress, Value: Coin(value), Fee: Coin(h.fee(r) % 1000), Type: transaction.TxnTypeSmartContract, Func: "run", Input: in}}
 		}},
-		{Name: "probe.parts", Tags: []string{"core", "probe", "C07", "C02"}, Build: func(h *Hist, r *mon.Rand) *Call {
+		{Name: "probe.parts", Tags: []string{"core", "probe", "C07", "C02", "C06"}, Build: func(h *Hist, r *mon.Rand) *Call {
 			// the real partitions library on the real state context: adds beyond the partition size (packed partitions become their
 			// own cacheable trie nodes), updates and removals of items in packed and last partitions, objects mutated and not saved,
 			// failures after the work
